@@ -168,6 +168,8 @@ pub enum Case {
     Amp { q: Q, single: bool, lit: String, suffix: String, spec: String },
     Decibel { q: Q, single: bool, lit: String, suffix: Option<String> },
     NonNumeric { q: Q, single: bool, kind: u8, text: String },
+    /// `1` with a suffix built by device code that contains a byte above 0x7F: never a defined suffix
+    HighByteSuffix { q: Q, single: bool, suffix: Vec<u8> },
 }
 
 fn lookup(q: Q, suffix: &str) -> Option<(f64, f64)> {
@@ -361,6 +363,21 @@ pub fn check(case: &Case, obs: &Obs) -> CheckResult {
         Case::Plain { q, single, lit, suffix } => check_plain(*q, *single, lit, suffix, obs, case),
         Case::Amp { q, single, lit, suffix, spec } => check_amp(*q, *single, lit, suffix, spec, obs, case),
         Case::Decibel { q, single, lit, suffix } => check_db(*q, *single, lit, suffix, obs, case),
+        Case::HighByteSuffix { q, single, suffix } => {
+            obs.label("suffix with a non-ASCII byte");
+            obs.nontrivial(case);
+            let tok = Token::DecimalNumericSuffixProgramData(b"1", suffix);
+            if let Ok(v) = conv(*q, *single, tok) {
+                fail!("undefined-accepted", "{q:?} from 1 {:?} = {v:e}; the suffix is not defined", crate::bytes::escape(suffix));
+            }
+            if let Ok(v) = conv_amp(*q, *single, tok) {
+                fail!("undefined-accepted", "Amplitude<{q:?}> from 1 {:?} = {v:?}; the suffix is not defined", crate::bytes::escape(suffix));
+            }
+            if let Some(Ok(v)) = conv_db(*q, *single, tok) {
+                fail!("undefined-accepted", "Db<{q:?}> from 1 {:?} = {v:?}; the suffix is not defined", crate::bytes::escape(suffix));
+            }
+            Ok(())
+        }
         Case::NonNumeric { q, single, kind, text } => {
             obs.label("non-numeric element");
             let t = text.as_bytes();
@@ -630,6 +647,36 @@ fn run(e: &Engine) {
                             let lower = (pos + b as usize) % 2 == 1;
                             let s: String = full.iter().enumerate().map(|(i, c)| if lower && i != pos { c.to_ascii_lowercase() as char } else { *c as char }).collect();
                             if !f(Case::Plain { q, single: b & 1 == 1, lit: "1".into(), suffix: Some(s) }) {
+                                return;
+                            }
+                        }
+                    }
+                }
+            }
+        },
+        check,
+    );
+    // ... and every byte value above 0x7F likewise (raw bytes: only device code can build such a token)
+    e.enumerate::<Case, _, _>(
+        "every-defined-suffix-every-high-byte-substituted",
+        ALL_Q.len() as u64,
+        |p, f| {
+            let q = ALL_Q[p as usize];
+            let mut bases: Vec<&'static str> = table(q).iter().map(|(s, _, _)| *s).collect();
+            bases.extend(db_table(q).iter().map(|(s, _)| *s));
+            for base in bases {
+                for pos in 0..=base.len() {
+                    for b in 128u16..256 {
+                        for insert in [false, true] {
+                            if !insert && pos == base.len() {
+                                continue;
+                            }
+                            let mut full = base.as_bytes().to_vec();
+                            if insert { full.insert(pos, b as u8) } else { full[pos] = b as u8 }
+                            if b & 1 == 1 {
+                                full.make_ascii_lowercase();
+                            }
+                            if !f(Case::HighByteSuffix { q, single: b & 2 == 2, suffix: full }) {
                                 return;
                             }
                         }
